@@ -38,6 +38,7 @@ func (p *vfC17Down) ServeDNS(ctx context.Context, ch *middleware.Chain) {
 
 func TestVerifC17Views(t *testing.T) {
 	defer vfstat.Flush()
+	vfstat.Quiet()
 	const U = "C17.views"
 	names := []string{"a.lan.", "b.lan.", "c.lan."}
 	rapid.Check(t, func(rt *rapid.T) {
